@@ -32,6 +32,7 @@ type Macro struct {
 }
 
 type LoopContract struct {
+	Anchor     string // alternative to Ordinal: normalised source-text prefix of the loop statement
 	Ordinal    int
 	Invariants []*Clause
 	Decreases  ast.Expr
@@ -43,6 +44,7 @@ type LoopContract struct {
 type GhostVar struct {
 	Name string
 	Sort string // int, real, bool
+	Init ast.Expr // optional initial value at unit entry
 }
 
 type AtCall struct {
@@ -77,6 +79,7 @@ type UnitContract struct {
 	HasMod   bool
 	Macros   map[string]*Macro
 	Loops    map[int]*LoopContract
+	ALoops   []*LoopContract // loops bound by anchor text
 	Safety   map[string][]string // kind -> tags  (div, index, uint, nofatal)
 	Inline   bool
 	Trusted  bool // contract is assumed, body not verified (listed in assumptions)
@@ -109,7 +112,7 @@ func (cs *ContractSet) Get(pkgdir, id string) *UnitContract {
 	return cs.ByID[pkgdir+":"+id]
 }
 
-var clauseHead = regexp.MustCompile(`^(requires|ensures|exit-ensures|invariant|assume|prove)(\[[A-Za-z0-9, ]*\])?\s+(?:([A-Za-z0-9_\-\.]+):\s)?(.*)$`)
+var clauseHead = regexp.MustCompile(`^(requires|ensures|exit-ensures|invariant|assume|prove)(\[[A-Za-z0-9., ]*\])?\s+(?:([A-Za-z0-9_\-\.]+):\s)?(.*)$`)
 
 func parseTags(s string) []string {
 	s = strings.Trim(s, "[]")
@@ -330,6 +333,15 @@ func (cs *ContractSet) parseFile(path, pkgdir string) error {
 				return fail(l, "loop outside unit")
 			}
 			id := strings.Fields(t)[1]
+			if k := strings.Index(t, "@\""); k >= 0 {
+				a, err := strconv.Unquote(strings.TrimSpace(t[k+1:]))
+				if err != nil {
+					return fail(l, "loop anchor: %v", err)
+				}
+				curLoop = &LoopContract{Anchor: normWS(a)}
+				cur.ALoops = append(cur.ALoops, curLoop)
+				break
+			}
 			i := strings.LastIndex(id, "#")
 			if i < 0 {
 				return fail(l, "loop id must be Func#n")
@@ -400,17 +412,27 @@ func (cs *ContractSet) parseFile(path, pkgdir string) error {
 		case strings.HasPrefix(t, "opaque "):
 			cur.Opaque = append(cur.Opaque, strings.Fields(strings.TrimPrefix(t, "opaque "))...)
 		case strings.HasPrefix(t, "ghost var "):
-			f := strings.Fields(strings.TrimPrefix(t, "ghost var "))
-			if len(f) != 2 {
-				return fail(l, "ghost var NAME SORT")
+			decl := strings.TrimPrefix(t, "ghost var ")
+			var init ast.Expr
+			if k := strings.Index(decl, "="); k >= 0 {
+				e, err := parseSpecExpr(decl[k+1:])
+				if err != nil {
+					return fail(l, "%v", err)
+				}
+				init = e
+				decl = decl[:k]
 			}
-			cur.Ghosts = append(cur.Ghosts, GhostVar{f[0], f[1]})
+			f := strings.Fields(decl)
+			if len(f) != 2 {
+				return fail(l, "ghost var NAME SORT [= INIT]")
+			}
+			cur.Ghosts = append(cur.Ghosts, GhostVar{f[0], f[1], init})
 		case strings.HasPrefix(t, "var "):
 			f := strings.Fields(strings.TrimPrefix(t, "var "))
 			if len(f) != 2 {
 				return fail(l, "var NAME SORT")
 			}
-			cur.Vars = append(cur.Vars, GhostVar{f[0], f[1]})
+			cur.Vars = append(cur.Vars, GhostVar{f[0], f[1], nil})
 		case strings.HasPrefix(t, "after stmt "), strings.HasPrefix(t, "before stmt "):
 			// after|before stmt "ANCHOR": ghost LHS = EXPR      or      ...: assert[TAGS] NAME: EXPR
 			before := strings.HasPrefix(t, "before stmt ")
